@@ -295,3 +295,7 @@ def check(ctx):
     ctx.ob("C13.R2", fd, "registered for exactly the variable's name",
            gk is not None and is_call(gk, "liesel.goose.gibbs.GibbsKernel")
            and kw(gk, "position_keys", 0) == ("list", (n("name"),)))
+
+    # ---- shared mechanisms: the neighbour's rules run as obligations of this property
+    ctx.include("C01", "C13.R3", only=['C01.R6'])
+    ctx.rule("R3", "shared mechanisms, run as obligations of this property: the conditional is evaluated through a targeted update that reaches every ancestor, also through `at` (C01.R6).")
